@@ -24,7 +24,8 @@ PROP = dict(
                    floors={"source<T>": 100000, "source:backward": 40000, "source:forward": 40000, "c-iterator": 15000,
                            "iterator::value": 1000000, "iterator::advance": 1000000, "iterator::reset": 200000, "iterator::get": 500000,
                            "monitor:closed-form-values": 500000, "monitor:closed-form-count": 100000, "state:read-past-end": 50000,
-                           "state:advance-past-end": 50000, "state:empty-source": 5000, "iterator-defaults": 5000}),
+                           "state:advance-past-end": 50000, "state:empty-source": 5000, "iterator-defaults": 5000,
+                           "io::buffer": 25000, "io::buffer::clone": 25000, "monitor:clone-elements": 30000}),
               ],
         rule=("case = one source description (PRNG from the grammar of its kind, or a mutated seed description) with one PRNG interleaving of "
               "value/advance/reset/clone/consume of up to 3*min(L,40)+23 steps after the reference walk; non-trivial = a source was created and "
